@@ -17,9 +17,12 @@ PROP = {
          'drain, target reset dropping queued bytes) with 0-2 writes of the other side racing it, or a dial failure with a 0..2048-byte '
          'message; veto cases script LogTraffic call k (1..10, one-shot or sticky) of one user whose connections only write/sync. '
          'Non-trivial: some connection carries >= 2 chunks in both directions and the case contains a terminal event, dial failure or '
-         'veto. Distinct = distinct (configuration, per-connection op-kind/size-class sequence, terminal).',
+         'veto. Distinct = distinct (configuration, per-connection op-kind/size-class sequence, terminal). Two pinned histories with generated '
+         'parameters (every case non-trivial): a chunk awaits its LogTraffic verdict while the other direction of its relay ends and the '
+         'verdict is a veto (VetoRacingClose); the same with verdict true while the handler is parked in EventLogger.TCPError before it '
+         'closes the two ends and 2-8 new relays of the same/another user move their own bytes (TeardownWindow, 1-3 windows per case).',
  'assumptions': ['the target connection behaves like the fake: Write never blocks, Close unblocks a pending Read, EOF/error may be returned together with the last bytes',
-                 'the TrafficLogger does not block (except in the scripted veto-race test) and is keyed by the id the Authenticator returned',
+                 'the TrafficLogger and the EventLogger do not block (except at the scripted yield points of the veto-race and teardown-window tests) and is keyed by the id the Authenticator returned',
                  'no RequestHook is configured (the accounting clause of the statement is restricted to un-hooked connections)',
                  '"one chunk in flight" = the relay copy buffer (32 KiB, read from copyBufPool), per direction and per torn-down relay',
                  'client-side rx totals are only a lower bound of "forwarded" once the client closed a connection before reading to its end or the user was vetoed; the upper accounting bound for rx is checked only otherwise'],
